@@ -6,7 +6,7 @@ from ..cmp import cmp_record, bits_close
 from .. import gen, oracle, graphs
 
 MODULE = "Momtrop.Props.C05R"
-THEOREMS = ["Momtrop.C05.isBad_iff", "Momtrop.C05.build_err_iff", "Momtrop.C05.build_err_first", "Momtrop.C05.build_ok", "Momtrop.C05.build_deterministic", "Momtrop.C05.J_pos", "Momtrop.C05.table_j_pos"]
+THEOREMS = ["Momtrop.C05.isBad_iff", "Momtrop.C05.build_err_iff", "Momtrop.C05.build_err_first", "Momtrop.C05.build_ok", "Momtrop.C05.build_deterministic", "Momtrop.C05.J_pos", "Momtrop.C05.table_j_pos", "Momtrop.C05.sector_probs_sum_one"]
 RULE = ("catalogue + random multigraphs (E<=6 quick / 8 thorough), D=1..6, weights steered to ~50% accepted, plus "
         "near-threshold variants with one subset's exact omega at +-{1e-15,1e-12,1e-6,1e-3}; every graph is built twice in "
         "one process (interleaved with other graphs) and once in a second process; non-trivial as in C03; "
